@@ -9,7 +9,8 @@
 (* blocked, annotation present), the node deadline (the NodeClaim's        *)
 (* termination timestamp; absent without a terminationGracePeriod), the    *)
 (* eviction queue pod -> deadline it is enqueued under, a logical clock,   *)
-(* and the ghost qU[p] = earliest deadline p was queued with.              *)
+(* and the ghost qU[p] = earliest deadline p was EVER queued with while it  *)
+(* stayed un-handled (kept when the implementation drops and re-adds it).  *)
 (*                                                                         *)
 (* Actions = linearization points: one drain pass (list pods, split into   *)
 (* past-threshold pods and tier-gated graceful candidates, Queue.Add), one *)
@@ -35,7 +36,9 @@ CONSTANTS Pods,         \* pod names (ordered p1 < p2 < ... by the archetype ind
           GateTiers,    \* TRUE (code) | FALSE: all tiers enqueued at once (spec mutation)
           MinGrace,     \* 1 (code) | 0 (spec mutation)
           DndMode,      \* "honour" (code) | "ignore" (spec mutation: evicts do-not-disrupt pods)
-          ThresholdSlack \* 0 (code) | 1: deletes one unit before deadline - grace (spec mutation)
+          ThresholdSlack, \* 0 (code) | 1: deletes one unit before deadline - grace (spec mutation)
+          DropMode      \* "keep" (code): an active pod that is not evictable stays enqueued | "drop" (spec mutation): its entry
+                        \* is released and the next drain pass re-adds it under whatever deadline is current
 
 VARIABLES attr, pd, dl, dlChanges, tgp, q, qU, now, bad, faults, restarts, spont, h
 vars == <<attr, pd, dl, dlChanges, tgp, q, qU, now, bad, faults, restarts, spont, h>>
@@ -129,10 +132,11 @@ DrainPass ==
            group == IF GateTiers THEN {p \in graceful : Tier(p) = firstTier} ELSE graceful
            add == force \cup group
        IN /\ q' = [p \in Pods |-> IF p \in add THEN EarlierOf(q[p], dl) ELSE q[p]]
-          /\ qU' = [p \in Pods |-> IF p \in add THEN (IF q[p] = NotQ THEN q'[p] ELSE DlMin(qU[p], q'[p])) ELSE qU[p]]
+          /\ qU' = [p \in Pods |-> IF p \in add THEN (IF qU[p] = NotQ THEN q'[p] ELSE DlMin(qU[p], q'[p])) ELSE qU[p]]
           \* queue entries only move to earlier deadlines; daemon / critical pods are handed to graceful eviction only
           \* when no first-class pod is left to evict first
-          /\ Judge(<< <<"G_C10_EarliestDeadline", \A p \in Pods : (q[p] # NotQ /\ q'[p] # NotQ) => G_C10_EarliestDeadline(q[p], q'[p])>>,
+          /\ Judge(<< <<"G_C10_EarliestDeadline", \A p \in Pods : /\ (q[p] # NotQ /\ q'[p] # NotQ) => G_C10_EarliestDeadline(q[p], q'[p])
+                                                                  /\ (p \in add /\ qU[p] # NotQ) => G_C10_EarliestDeadline(qU[p], q'[p])>>,
                       <<"G_C10_TierOrder", \A p \in {x \in add : q[x] = NotQ} :
                             G_C10_TierOrder(AbsPod(p), q'[p], PodsOnNode, LAMBDA x : q'[p], now, StuckAfterU, Dur)>> >>)
     /\ Hist([a |-> "NodeRec"])
@@ -158,7 +162,8 @@ QRec(p, f) ==
        ELSE IF Terminal_(p) \/ Terminating_(p)
        THEN f = "ok" /\ Complete(p) /\ UNCHANGED <<pd, bad>>
        ELSE IF attr[p].tol \/ attr[p].static \/ (DndMode = "honour" /\ DndActive_(p))
-       THEN f = "ok" /\ UNCHANGED <<pd, q, qU, bad>>
+       THEN /\ f = "ok" /\ UNCHANGED <<pd, qU, bad>>
+            /\ q' = IF DropMode = "drop" THEN [q EXCEPT ![p] = NotQ] ELSE q
        ELSE \* eviction attempt (200 / 429 by the PDB / 500): only evictable pods, in class order; a 429 leaves the pod alone
             /\ Judge(<< <<"G_C10_EvictOnlyEvictable", G_C10_EvictOnlyEvictable(ap, now, Dur)>>,
                         <<"G_C10_TierOrder", G_C10_TierOrder(ap, Dl(ap), PodsOnNode, Dl, now, StuckAfterU, Dur)>> >>)
